@@ -74,7 +74,7 @@ pub fn run(args: &Args) -> Report {
         if let Ok(g) = Grammar::load() {
             let ndocs = if args.thorough { 300 } else { 40 };
             for d in 0..ndocs {
-                let toks = gen_document(&g, &mut rng, GenOpts { opt_prob: 25, ..GenOpts::default() });
+                let toks = gen_document(&g, &mut rng, GenOpts { opt_prob: 25, specials: true, ..GenOpts::default() });
                 let text = render(&toks, &mut rng, [Layout::Canonical, Layout::Wild][d % 2], d % 5 == 0);
                 let step = if args.thorough { 7 } else { (text.len() / 40).max(1) };
                 for p in crate::soup::prefixes(&text, step) {
